@@ -153,8 +153,13 @@ def h_adjust(ctx, setname, descriptor):
     R, refs, models, exps = _refs(ctx, comps, descriptor, T_ref, False)
     keys = sorted({k for c_ in comps for k in c_})
     T = ctx.real('T', 50, 5000)
-    counts = {k: ctx.real('n_' + k, 0, 20) for k in keys}
-    counts['Zz'] = ctx.real('n_absent', 0, 20)          # descriptor absent from the references
+    # descriptors absent from the references: before, between and after the referenced ones
+    counts = {'Aa': ctx.real('n_absent_first', 0, 20)}
+    for i, k in enumerate(keys):
+        counts[k] = ctx.real('n_' + k, 0, 20)
+        if i == 0:
+            counts['Mm'] = ctx.real('n_absent_middle', 0, 20)
+    counts['Zz'] = ctx.real('n_absent_last', 0, 20)
     m = RefModel(ctx, 'target')
     sp = _species(ctx, m, counts, descriptor, R)
     want = 0
